@@ -196,6 +196,14 @@ func vfOpen(arr int, rk uint64, parA, parB refobfs3.Params, wireCap [2]int, fata
 }
 
 func vfOpenForced(arr int, rk uint64, parA, parB refobfs3.Params, wireCap [2]int, force [2][2]int, fatal func(string)) *vfSess {
+	return vfOpenChoose(arr, rk, parA, parB, wireCap, force, nil, fatal)
+}
+
+// vfOpenChoose: in the mixed arrangements the real side is started first; when
+// choose is not nil it is shown the real side's public value and may replace
+// the reference party's private key before that party starts (a party may
+// delay its first flight until it has seen the peer's).
+func vfOpenChoose(arr int, rk uint64, parA, parB refobfs3.Params, wireCap [2]int, force [2][2]int, choose func(realPub []byte, ref *refobfs3.Params), fatal func(string)) *vfSess {
 	s := &vfSess{n: wire.New(), arr: arr, rk: rk}
 	s.fatal = func(msg string) {
 		s.close() // restore the global random source before the test function is left
@@ -233,18 +241,32 @@ func vfOpenForced(arr int, rk uint64, parA, parB refobfs3.Params, wireCap [2]int
 			})
 		}
 	}
-	if s.ends[1].real {
-		s.forcer.arm(s.ends[1].force[0])
+	// Server first (fixed order of randomness consumption of two real sides);
+	// with one real side, that side first.
+	first, second := s.ends[1], s.ends[0]
+	if !first.real {
+		first, second = second, first
 	}
-	start(s.ends[1])
-	if err := s.n.WaitQuiescent(wire.B); err != nil {
-		s.fail("c13-wedge", "server did not park: %v", err)
+	if first.real {
+		s.forcer.arm(first.force[0])
+	}
+	start(first)
+	if err := s.n.WaitQuiescent(first.side); err != nil {
+		s.fail("c13-wedge", "side %v did not park: %v", first.side, err)
 	}
 	s.forcer.arm(-1)
-	if s.ends[0].real {
-		s.forcer.arm(s.ends[0].force[0])
+	if choose != nil && first.real && !second.real {
+		pb := s.n.PendingBytes(first.side)
+		if len(pb) < refobfs3.UDHSize {
+			s.fail("c13-padding-length", "real side %v wrote only %d bytes", first.side, len(pb))
+		}
+		second.par.Initiator = second.side == wire.A
+		choose(pb[:refobfs3.UDHSize], &second.par)
 	}
-	start(s.ends[0])
+	if second.real {
+		s.forcer.arm(second.force[0])
+	}
+	start(second)
 	s.quiesce()
 	s.forcer.arm(-1)
 	for _, e := range s.ends {
